@@ -52,8 +52,25 @@ class NondetSet(set):
 
     def __iter__(self):
         k = len(self._order)
-        if k <= 1 or k > 4:
+        if k <= 1:
             return iter(list(self._order))
+        if k > 4:
+            # large sets: six representative orders instead of all k! (identity, reversed, rotated, ...)
+            i = USED[0]
+            USED[0] += 1
+            o = (CHOICES[i % len(CHOICES)] if CHOICES else 0) % 6
+            items = list(self._order)
+            if o == 1:
+                items.reverse()
+            elif o == 2:
+                items = items[k // 2:] + items[:k // 2]
+            elif o == 3:
+                items = items[1::2] + items[0::2]
+            elif o == 4:
+                items = sorted(items, key=repr)
+            elif o == 5:
+                items = sorted(items, key=repr, reverse=True)
+            return iter(items)
         i = USED[0]
         USED[0] += 1
         o = CHOICES[i % len(CHOICES)] if CHOICES else 0
@@ -65,10 +82,11 @@ def install():
     supp.name.set = NondetSet
     supp.scope.set = NondetSet
     supp.evaluator.set = NondetSet
+    supp.assistant.set = NondetSet
 
 
 def uninstall():
-    for m in (supp.name, supp.scope, supp.evaluator):
+    for m in (supp.name, supp.scope, supp.evaluator, supp.assistant):
         if 'set' in m.__dict__:
             del m.__dict__['set']
 
@@ -81,13 +99,21 @@ CASES = [
     ('from cm import x\nx\n', (2, 1), {'cm': 'if a:\n    x = 1\nelif b:\n    x = 2\nelse:\n    x = 3\n'}),
     ('import cm\ncm.x\n', (2, 4), {'cm': 'try:\n    x = 1\nexcept E:\n    x = 2\nx = 3 if a else x\n'}),
     ('while a:\n    if b:\n        x = 1\n    elif c:\n        x = 2\nx = 3 if d else 4\nif e:\n    x = 5\nx\n', (9, 1), {}),
+    # nested groups that share their first definition (tie on a "first alternative" key)
+    ('x = 0\nif a:\n    if b:\n        x = 1\nelse:\n    if c:\n        x = 2\nx\n', (8, 1), {}),
+    ('x = 0\nfor i in y:\n    if b:\n        x = 1\n    else:\n        try:\n            x = 2\n        except E:\n            pass\nx\n', (10, 1), {}),
+]
+# completion lists whose members differ only by letter case (a case-insensitive sort would leave their order to the set)
+ASSIST_CASES = [
+    ('Handler = 1\nhandler = 2\nHANDLER = 3\nhAndler = 4\nhan', (5, 3), {}),
+    ('import cm\ncm.', (2, 3), {'cm': 'Circle = 1\ncircle = 2\nCIRCLE = 3\ncIrcle = 4\n'}),
 ]
 ROOT = [None]
 
 
 def materialise(path):
     """called by props/c17.py before the queries start (CrossHair blocks file writes during analysis)"""
-    for i, (src, pos, mods) in enumerate(CASES):
+    for i, (src, pos, mods) in enumerate(CASES + ASSIST_CASES):
         d = os.path.join(path, 'c%d' % i)
         os.makedirs(d, exist_ok=True)
         for m, text in mods.items():
@@ -100,6 +126,10 @@ def root():
 
 
 def observe(i):
+    if i >= len(CASES):
+        src, pos, mods = ASSIST_CASES[i - len(CASES)]
+        d = os.path.join(root(), 'c%d' % i)
+        return [repr(assist(Project([d]), src, pos, os.path.join(d, 'main.py')))]
     src, pos, mods = CASES[i]
     d = os.path.join(root(), 'c%d' % i)
     p = Project([d])
@@ -114,6 +144,8 @@ def observe(i):
 def source_order_ok(i, obs):
     """alternatives of a multiply-bound name are listed in source order"""
     import ast
+    if i >= len(CASES):
+        return True
     loc = ast.literal_eval(obs[0])
     for r in loc:
         if isinstance(r, list):
@@ -140,13 +172,13 @@ def run_case(i, choices):
 
 def check(case: int, o0: int, o1: int, o2: int) -> bool:
     """
-    pre: 0 <= case < 6
+    pre: 0 <= case < 10
     pre: 0 <= o0 < 6 and 0 <= o1 < 6 and 0 <= o2 < 6
     post: _
     """
     PATHS[0] += 1
     from crosshair.tracers import NoTracing
-    i = _concrete(case, len(CASES))
+    i = _concrete(case, len(CASES) + len(ASSIST_CASES))
     ch = [_concrete(o0, 6), _concrete(o1, 6), _concrete(o2, 6)]
     with NoTracing():
         base, got = run_case(i, ch)
